@@ -158,6 +158,12 @@ func GenTree(prop string, r *sim.Rand, tier string) sim.Script {
 		nOps = 100 + r.Intn(300)
 		nPool = 20 + r.Intn(60)
 	}
+	bigTree := prop == "C17" && r.Chance(1, 150) // hundreds of nodes: a donor store larger than one write batch
+	if bigTree {
+		nOps = 350 + r.Intn(250)
+		nPool = 300 + r.Intn(200)
+		profile = []string{"fixed", "mixed"}[r.Intn(2)]
+	}
 	c := genCfg{prop: prop, nOps: nOps, pool: pathPool(r, profile, nPool)}
 	c.valProfile = []string{"plain", "plain", "small", "sep", "bin"}[r.Intn(5)]
 	c.wIns, c.wDel, c.wGet, c.wIter, c.wEmpty = 45, 25, 8, 2, 3
@@ -349,6 +355,9 @@ func GenTree(prop string, r *sim.Rand, tier string) sim.Script {
 			}
 		default: // mixture
 			op.S = []int{-1 - r.Intn(1000), r.Intn(1000), r.Intn(1000)}
+		}
+		if bigTree {
+			op.S = []int{-100000} // everything below the root
 		}
 		op.P = "samever"
 		if r.Chance(1, 2) {
